@@ -27,6 +27,7 @@ type c06Case struct {
 	Attempts []c06Fault `json:"attempts"`
 	HoldMs   int        `json:"hold_ms"`
 	HeaderMs int        `json:"header_ms"`
+	Scribble bool       `json:"scribble,omitempty"`
 	LockStep bool       `json:"lock_step,omitempty"`
 	VMID     bool       `json:"vm_identity,omitempty"`
 }
@@ -186,6 +187,31 @@ func C06(r *core.Run) {
 		id := fmt.Sprintf("s%d-%d", r.Seed, len(cases))
 		cases = append(cases, c06Case{ID: id, BodyLen: []int{3000, 900, 6000, 2400}[i], Chunks: 3, LockStep: true,
 			Attempts: []c06Fault{{Kind: "e5xx", At: at, KeepOpen: i%2 == 0}, okF}})
+	}
+	// the transport reads the body through a caller that reuses its read buffer: an early 5xx while the first attempt's reader is
+	// blocked on the backend, then a piece that crosses the 4 KiB replay limit arrives in that stale read
+	for i, at := range []int{100, 0, 300, 100, 2000, 50} {
+		id := fmt.Sprintf("s%d-%d", r.Seed, len(cases))
+		cases = append(cases, c06Case{ID: id, BodyLen: []int{5000, 6000, 4500, 9000, 5200, 70000}[i], Chunks: []int{2, 2, 3, 3, 2, 4}[i], HoldMs: 250, Scribble: true,
+			Attempts: []c06Fault{{Kind: "e5xx", At: at, KeepOpen: i%2 == 0}, okF}})
+	}
+	// ... and the same with first parts of every size that lets some piece of the serialised stream (a chunk-size line, a CRLF)
+	// straddle the 4096th byte while it is delivered to the stale reader; the 5xx comes when the proxy has received nearly all
+	// of the first part, i.e. when the first attempt's reader is blocked waiting for the backend
+	for f := r.Pick(3860, 3700); f <= r.Pick(3990, 4100); f++ {
+		id := fmt.Sprintf("s%d-%d", r.Seed, len(cases))
+		cases = append(cases, c06Case{ID: id, BodyLen: 2 * f, Chunks: 2, HoldMs: 120, Scribble: true,
+			Attempts: []c06Fault{{Kind: "e5xx", At: f - 100, KeepOpen: f%2 == 0}, okF}})
+	}
+	// (which of two neighbouring sizes lines up varies from run to run with the transport's read pattern: the sizes around the
+	// computed alignment - the case ID occurs three times in the header block - are repeated)
+	for rep := 0; rep < r.Pick(8, 24); rep++ {
+		for d := -6; d <= 6; d++ {
+			id := fmt.Sprintf("s%d-%d", r.Seed, len(cases))
+			f := 3946 - 3*(len(id)-6) + d
+			cases = append(cases, c06Case{ID: id, BodyLen: 2 * f, Chunks: 2, HoldMs: 100 + 10*rep, Scribble: true,
+				Attempts: []c06Fault{{Kind: "e5xx", At: f - 100 - 40*(rep%3), KeepOpen: rep%2 == 0}, okF}})
+		}
 	}
 	// an early 5xx with a reply body from a proxy that then stops reading without closing, while a response far larger
 	// than the socket buffers is streaming: the handler must still be released
